@@ -34,7 +34,7 @@ def make(n: int) -> Item:
 
 COUNT: int = 3
 '''
-M1 = '''from m0 import Item, make, COUNT
+M1 = '''from c04pool.m0 import Item, make, COUNT
 
 class Holder:
 	item: Item
@@ -51,7 +51,7 @@ def make1(n: int) -> Holder:
 
 COUNT1: int = 4
 '''
-M2 = '''from m1 import Holder, make1
+M2 = '''from c04pool.m1 import Holder, make1
 
 class Top:
 	h: Holder
@@ -81,15 +81,25 @@ def make(n: str) -> Item:
 	x = n + 'x'
 	return Item(x)
 
+def wide(p0: int, p1: str, p2: float, p3: bool, p4: int, p5: str, p6: float, p7: bool, p8: int, p9: str, p10: int) -> float:
+	return p2
+
+def pick(alpha: int, beta: int) -> int:
+	gamma = alpha + 1
+	delta = beta + 2
+	def inner(n: int) -> int:
+		return n + delta + gamma + beta + alpha
+	return inner(1)
+
 COUNT: str = 'c'
 '''
 MAIN_V = {
-    'v0': 'from m1 import make1\n\ndef run(n: int) -> int:\n\tx = make1(n)\n\treturn x.get()\n',
-    'v1': 'from m3 import make\n\ndef run(n: str) -> str:\n\tx = make(n)\n\treturn x.get()\n',
+    'v0': 'from c04pool.m1 import make1\n\ndef run(n: int) -> int:\n\tx = make1(n)\n\treturn x.get()\n',
+    'v1': 'from c04pool.m3 import make, wide\n\ndef run(n: str) -> str:\n\tx = make(n)\n\tw = wide(1, \'a\', 1.5, True, 2, \'b\', 2.5, False, 3, \'c\', 4)\n\treturn x.get()\n',
     'bad': 'def run(n: int) -> int:\n\treturn (n +\n',
 }
-POOL = {'m0': M0, 'm1': M1, 'm2': M2, 'm3': M3}
-MODS = ['m0', 'm1', 'm2', 'm3']
+POOL = {'c04pool.m0': M0, 'c04pool.m1': M1, 'c04pool.m2': M2, 'c04pool.m3': M3}
+MODS = list(POOL)
 
 
 def alphabet():
@@ -102,22 +112,38 @@ def alphabet():
     return ops
 
 
-def new_session():
+def write_pool():
+    """The pool modules live on disk (so that entry and symbol caches take part in the histories); __main__ is in memory."""
+    from mc.tranp.session import ensure_workdir
+    wd = ensure_workdir()
+    os.makedirs(os.path.join(wd, 'c04pool'), exist_ok=True)
+    for name, src in POOL.items():
+        p = os.path.join(wd, name.replace('.', os.sep) + '.py')
+        if not os.path.exists(p):
+            with open(p, 'w') as f:
+                f.write(src)
+            os.utime(p, (1_700_000_000, 1_700_000_000))
+    return wd
+
+
+def new_session(cache=True):
     from mc.tranp.session import Session
-    s = Session(dict(POOL, __main__=MAIN_V['v0']))
+    write_pool()
+    s = Session({'__main__': MAIN_V['v0']}, cache=cache)
     s.warm()
     return s
 
 
 def baselines():
-    """Transpile of each module (and each main variant) in a fresh session per item."""
+    """Transpile of each module (and each main variant) in a fresh session per item, caching disabled (nothing restored)."""
     from mc.tranp.session import Session
+    write_pool()
     out = {}
     for m in MODS:
-        s = Session(dict(POOL, __main__=MAIN_V['v0']))
+        s = Session({'__main__': MAIN_V['v0']}, cache=False)
         out[m] = s.transpile(m)
     for v, src in MAIN_V.items():
-        s = Session(dict(POOL, __main__=src))
+        s = Session({'__main__': src}, cache=False)
         try:
             out[f'__main__:{v}'] = s.transpile('__main__')
         except Exception as e:  # noqa
@@ -246,8 +272,9 @@ def run(ctx):
     ops = alphabet()
     # second level as work units for a better balance
     tasks = [(list(op), depth, base) for op in ops]
-    from mc.tranp.session import Session
-    Session(dict(POOL, __main__=MAIN_V['v0'])).warm()
+    warm = new_session()
+    for m in MODS:
+        warm.load(m)
     res = pool.pmap(worker, tasks, workers=ctx.workers, rotate=ctx.seed)
     transitions = 0
     samples = []
